@@ -699,6 +699,10 @@ def run_C11(res, tier, seed, t_end, bad):
 
 def run_C14(res, tier, seed, t_end, bad):
     import aio
+    # (0) small scope in full: park / pipeline behind / feed in the same or the next turn of the event loop / serve or time out
+    aio.run_async_campaign(res, 'C14', None, 0, seed + 3, t_end, plans=aio.async_scenarios())
+    if res.findings:
+        return
     # (1) blocking pops on the asyncio front-end: served, timed out, pipelined requests behind them
     aio.run_async_campaign(res, 'C14', aio.plan_async(70), budget(tier, 30, 800), seed, t_end)
     # (2) every other command family through the asyncio socket against the same model as the sync socket
